@@ -300,7 +300,8 @@ class BitSet(BaseBitSet):
         """
 
         # If the source is a list, tuple, or set, we can guess the size
-        if not size and isinstance(source, (list, tuple, set, frozenset)):
+        if (not size and source
+            and isinstance(source, (list, tuple, set, frozenset))):
             size = max(source)
         bytecount = bytes_for_bits(size)
         self.bits = array("B", (0 for _ in xrange(bytecount)))
